@@ -100,10 +100,10 @@ def c14(cx):
     lea_glue.apply(cx, ["R-EXPECT-TABLE", "R-ERR-PAIR"])
 
 
-@prop("C03", "structural rules R-CURSOR-COUNT (every chars.next() of Cursor::advance/advance_by is matched by +1 on "
-             "char_offset, in the debug and the release configuration; nobody else writes the field) and R-UNITS (a "
-             "byte/code-point dimension analysis: ByteOffset::new, CharOffset::new, str slicing bounds and comparisons "
-             "never mix the two units).")
+@prop("C03", 'structural rules R-CURSOR-COUNT (every chars.next() of Cursor::advance/advance_by is matched by +1 '
+             'on char_offset, in the debug and the release configuration; nobody else writes the field) and '
+             'R-UNITS (a byte/code-point dimension analysis: ByteOffset::new, CharOffset::new, str slicing bounds, '
+             'comparisons, and plain-integer parameters / fields whose name declares the unit never mix the two).')
 def c03(cx):
     rules_struct.r_cursor_count(cx, ["dev-none-stable", "rel-none-stable"])
     rules_struct.r_units(cx, ["dev-none-stable", "dev-msep-stable"])
@@ -121,6 +121,7 @@ def c02(cx):
     rules_struct.r_eof(cx, fx)
     rules_struct.r_bom_order(cx, fx)
     rules_cfg.r_cfgdiff_macrosep(cx)
+    rules_struct.r_comutate(cx, ["dev-none-stable", "dev-msep-stable"])
     lea_glue.apply(cx, ["R-OFFSET-PROVENANCE", "R-EMIT-ORDER"])
 
 
@@ -136,21 +137,30 @@ def c12(cx):
     lea_glue.apply(cx, ["R-CKPT", "R-PENDING", "R-WS-ORDER", "R-EXPECT-TABLE"])
 
 
-@prop("C17", "R-BOM-ORDER: the BOM constant is only looked at in Lexer::new, where it is eaten before the first "
-             "offsets are snapshotted and the first line is added with those post-BOM offsets; R-UNITS.")
+@prop("C17", 'R-BOM-ORDER (the BOM constant is only looked at in Lexer::new, where it is eaten once before the '
+             'first offsets are snapshotted and the first line is added with those post-BOM offsets), R-UNITS, '
+             'R-NO-ABSOLUTE (no control flow on history lengths or on a source position compared with a constant: '
+             "the BOM shifts every offset) and LEA R-DATALINES-START (the one look-behind that asks 'is this the "
+             "start' does not distinguish position 0).")
 def c17(cx):
     fx = cx.facts("dev-none-stable")
     rules_struct.r_bom_order(cx, fx)
     rules_struct.r_units(cx, ["dev-none-stable"])
+    rules_cfg.r_no_absolute(cx)
+    lea_glue.apply(cx, ["R-DATALINES-START"])
 
 
-@prop("C05", "sibling-implementation agreement R-BULK-AGREE: the field initialisers of into_resolved_token_vec and the "
-             "bodies of the per-token accessors are evaluated symbolically from their HIR and compared on witnesses of "
-             "every order type of the compared offsets (token / next token / line start), for inner tokens and the EOF "
-             "token, in the debug and the release configuration; plus R-UNITS on buffer.rs.")
+@prop("C05", 'sibling-implementation agreement R-BULK-AGREE: the field initialisers of into_resolved_token_vec and '
+             'the bodies of the per-token accessors are evaluated symbolically from their HIR and compared on '
+             'witnesses of every order type of the compared offsets (token / next token / line start), for inner '
+             'tokens and the EOF token, in the debug and the release configuration; R-UNITS on buffer.rs; '
+             'R-RESTORE (rollback cuts the line table, so no token precedes the start of its line - the ordering '
+             'the agreement relies on).')
 def c05(cx):
     rules_bulk.run(cx)
     rules_struct.r_units(cx, ["dev-none-stable"])
+    # the two views agree only while no token precedes the start of its line: rollback must cut the line table
+    rules_struct.r_restore(cx, cx.facts("dev-none-stable"))
 
 
 @prop("C11", 'LEA rules on macro-free open-code paths: R-PENDING (the pending-statement flag follows the last '
@@ -177,11 +187,15 @@ def c15(cx):
 
 @prop("C18", 'R-CFGDIFF-MACROSEP: structural diff of the feature-off and feature-on HIR: feature-only code may '
              'only read and emit/insert MacroSep; R-MACROSEP-GUARD: every MacroSep emission is guarded by '
-             'needs_macro_sep, goes to DEFAULT without payload, the predicate keeps its exclusions/targets; '
-             'R-INSERT-PROVENANCE for the inserted token; R-LOOKBEHIND.')
+             "needs_macro_sep and goes to DEFAULT without payload, and the predicate's full truth table "
+             "(constant-folded for all 289 x 288 arguments) is false after start/';'/label/%then/%else and true "
+             'only before macro statement keywords or labels; R-INSERT-PROVENANCE for the inserted token; '
+             "R-LOOKBEHIND (rows None and ';' identical); R-COMUTATE (derived buffer state is maintained by every "
+             'mutator, incl. the feature-only insert_token).')
 def c18(cx):
     rules_cfg.r_cfgdiff_macrosep(cx)
     rules_cfg.r_lookbehind(cx)
+    rules_struct.r_comutate(cx, ["dev-none-stable", "dev-msep-stable"])
 
 
 @prop("C19", "R-STATE-INVENTORY (no global/interior-mutable state, no env/time/thread/rand calls), R-CFGDIFF-DEBUG "
